@@ -204,9 +204,6 @@ func genChk(g *hx.Gen, r *hx.Rand) {
 				sum += cross[s].key
 			}
 		}
-		if sum == 0 {
-			sum = 1
-		}
 		np := 1 + r.Intn(2)
 		for i := 0; i < np; i++ {
 			w.progs = append(w.progs, prog{kind: "S", sKey: sum})
